@@ -222,6 +222,9 @@ pub struct FrameRec {
     pub raw: bool,
     pub verdict: Verdict,
     pub ctx: Ctx,
+    /// set by a scenario: source-address findings on this frame get the signature
+    /// `C10/source/<tag>` (an application model whose verdicts must be easy to tell apart)
+    pub source_tag: Option<String>,
 }
 
 pub struct Rig {
@@ -240,6 +243,11 @@ pub struct Rig {
     pub hangs: Vec<String>,
     /// findings a scenario establishes itself (signature, detail)
     pub extra_findings: Vec<(String, String)>,
+    /// see FrameRec::source_tag
+    pub source_tag: Option<String>,
+    /// addresses the interface owned when the first fragment of an IPv4 train left
+    pub train_own: std::collections::BTreeMap<Vec<u8>, Vec<(Addr, u8)>>,
+    pub later_fragments_from_a_removed_address: u64,
     pub dead: bool,
     pub polls: u64,
     pub trace: Vec<String>,
@@ -263,6 +271,22 @@ fn ip_tuple(medium: Medium, f: &[u8]) -> Option<(Vec<u8>, Vec<u8>, u8)> {
         6 if p.len() >= 40 => Some((p[8..24].to_vec(), p[24..40].to_vec(), p[6])),
         _ => None,
     }
+}
+
+/// (src, dst, protocol, identification) of an IPv4 fragment, Ethernet / raw IP only
+fn v4_frag_key(medium: Medium, f: &[u8]) -> Option<Vec<u8>> {
+    let p = match medium {
+        Medium::Ethernet if f.len() >= 14 && f[12] == 0x08 && f[13] == 0x00 => &f[14..],
+        Medium::Ip => f,
+        _ => return None,
+    };
+    if p.len() < 20 || p[0] >> 4 != 4 || (p[6] & 0x3f == 0 && p[7] == 0) {
+        return None;
+    }
+    let mut k = p[12..20].to_vec();
+    k.push(p[9]);
+    k.extend_from_slice(&p[4..6]);
+    Some(k)
 }
 
 impl Rig {
@@ -315,6 +339,9 @@ impl Rig {
             panics: vec![],
             hangs: vec![],
             extra_findings: vec![],
+            source_tag: None,
+            train_own: Default::default(),
+            later_fragments_from_a_removed_address: 0,
             dead: false,
             polls: 0,
             trace: vec![],
@@ -363,7 +390,25 @@ impl Rig {
                 None => false,
             };
             let ctx = Ctx { medium: self.cfg.medium, mtu: self.cfg.dev_mtu(), own: own.clone(), ck: self.ck, raw };
-            let verdict = self.mon.validate(&f, &ctx);
+            let mut verdict = self.mon.validate(&f, &ctx);
+            // IPv4 fragment trains and renumbering. The statement does not say at which moment
+            // "own" is judged; the lenient reading (HARNESS_GUIDE rule 2) for the LATER fragments
+            // of a datagram is the moment its first fragment left: the train is one packet, its
+            // header cannot change half-way, and sending the rest is what lets the receiver
+            // reassemble it. Such frames are counted, not reported. (A retransmitted or newly
+            // built packet is a new packet and gets no such allowance.)
+            if let Some(key) = v4_frag_key(self.cfg.medium, &f) {
+                if verdict.class.ends_with("/frag-first") {
+                    self.train_own.insert(key, own.clone());
+                } else if let Some(then) = self.train_own.get(&key) {
+                    let src = crate::wirecheck::Addr::V4([key[0], key[1], key[2], key[3]]);
+                    if then.iter().any(|(a, _)| *a == src) {
+                        let before = verdict.findings.len();
+                        verdict.findings.retain(|x| !(x.clause == "source" && x.cause == "not-an-own-address"));
+                        self.later_fragments_from_a_removed_address += (before - verdict.findings.len()) as u64;
+                    }
+                }
+            }
             if self.keep_trace {
                 self.trace.push(format!(
                     "t={}us   TX[{}] {}{} {}{}{}",
@@ -376,7 +421,7 @@ impl Rig {
                     verdict.findings.iter().map(|x| format!("\n        !! {} :: {}", x.sig(), x.detail)).collect::<String>()
                 ));
             }
-            self.log.push(FrameRec { t_us: self.now_us, frame: f, raw, verdict, ctx });
+            self.log.push(FrameRec { t_us: self.now_us, frame: f, raw, verdict, ctx, source_tag: self.source_tag.clone() });
         }
         if let Err(e) = r {
             let msg = panic_msg(e);
